@@ -12,7 +12,7 @@ CHECKS = {
     "C07": {
         "technique": "deterministic simulation: seeded histories over a simulator-owned sync.Pool model + relational oracle (probe after history vs. fresh process)",
         "text": "Seeded exploration of call histories (Parse/Validate/Collect*/aborted calls/pool clears) in which the simulator decides which recycled object every pool Get returns; "
-                "each probe call is compared field by field with the same call in a fresh process. Sampling of a very large space: evidence, not proof; the right level because the property quantifies over histories and pool contents that only a controlled pool can reach.",
+                "each probe call is compared field by field with the same call in a fresh process; histories also go through the front ends (with reader faults) and contain documented edits of the global configuration (message map entries, global formatter, number coercers), after which every message must be worded by the configuration in force at that moment. Sampling of a very large space: evidence, not proof; the right level because the property quantifies over histories and pool contents that only a controlled pool can reach.",
         "note": TRUST + "the relational oracle embeds no model of zog.",
         "design": "DESIGN.md §3 C07",
     },
@@ -24,7 +24,7 @@ REL = TRUST + "the relational oracle embeds no model of zog."
 CHECKS.update({
     "C01": {
         "technique": "deterministic simulation: seeded schema/input worlds under simulator-chosen field visit orders and recycled pools + independent re-evaluation of the destination",
-        "text": "Seeded exploration of random schema trees, almost-valid inputs, both modes, every field visit order decided by the simulator and pools recycled across warm-up calls; whenever a call returns no issues every declared test, Required and NotNil is re-evaluated on the destination with predicates written independently of zog. Evidence by sampling; bounded depth (<=3) and width (<=4).",
+        "text": "Seeded exploration of random schema trees, almost-valid inputs, both modes, every field visit order decided by the simulator and pools recycled across warm-up calls; whenever a call returns no issues every declared test, Required and NotNil is re-evaluated on the destination with predicates written independently of zog. Evidence by sampling; bounded depth (<=3, plus narrow chains of up to 14 path segments) and width (<=4).",
         "note": TRUST + "independent predicates for the generated tests (sim/harness/model.go TestPass).",
         "design": "DESIGN.md §3 C01",
     },
